@@ -21,8 +21,10 @@ Confs(e) == {<<e.conf2[i][1], e.conf2[i][2]>> : i \in 1..Len(e.conf2)}
 
 \* e.unsendable: the local tree holds a file whose name is not UTF-8; wire paths are text, so the client must refuse
 \* (non-zero exit, hub untouched) rather than land the file under some other name
+\* e.blocked: the local tree holds a file where the hub has a directory (or the reverse); that Put is answered with an error, so
+\* the run cannot land the tree and must not exit 0
 FailedSeq(e) ==
-     (IF e.exit = 0 \/ e.unsendable THEN {} ELSE {"sequential-run-failed"})
+     (IF e.exit = 0 \/ e.unsendable \/ e.blocked THEN {} ELSE {"sequential-run-failed"})
   \cup (IF e.exit = 0 /\ ~(\A p \in 1..N(e) : e.local[p] # 0 => e.hub2[p] = e.local[p]) THEN {"local-file-not-on-hub"} ELSE {})
   \cup (IF ~(\A p \in 1..N(e) : e.local[p] = 0 => e.hub2[p] = e.hub[p]) \/ e.alien # <<>> \/ Len(e.conf2) # Len(e.conf) THEN {"other-hub-path-touched"} ELSE {})
   \cup (IF e.exit = 0 /\ ~(e.second.exit = 0 /\ e.second.sent \in {0, -1} /\ e.second.conflicts \in {0, -1} /\ e.second.unchanged) THEN {"second-run-sends"} ELSE {})
@@ -39,7 +41,9 @@ FailedLarge(e) ==
   \cup (IF e.second.exit = 0 /\ e.second.sent \in {0, -1} /\ e.second.conflicts \in {0, -1} /\ e.second.unchanged THEN {} ELSE {"large-tree-second-run-fails"})
 
 Failed(e) == IF e.kind = "seq" THEN FailedSeq(e) ELSE IF e.kind = "large" THEN FailedLarge(e) ELSE FailedRace(e)
-Conform(e) == e.kind # "seq" \/ (e.unsendable /\ e.exit # 0 /\ e.hub2 = e.hub /\ e.alien = <<>>) \/ (~e.unsendable /\ e.hub2 = SeqResult(e) /\ e.sent = Cardinality({p \in 1..N(e) : e.local[p] # 0 /\ e.local[p] # e.hub[p]})
+Conform(e) == e.kind # "seq" \/ (e.unsendable /\ e.exit # 0 /\ e.hub2 = e.hub /\ e.alien = <<>>)
+                               \/ (~e.unsendable /\ e.blocked /\ e.exit # 0 /\ \A p \in 1..N(e) : e.hub2[p] \in {e.hub[p], e.local[p]})
+                               \/ (~e.unsendable /\ ~e.blocked /\ e.hub2 = SeqResult(e) /\ e.sent = Cardinality({p \in 1..N(e) : e.local[p] # 0 /\ e.local[p] # e.hub[p]})
                                                   /\ e.skipped = Cardinality({p \in 1..N(e) : e.local[p] # 0 /\ e.local[p] = e.hub[p]}))
 
 Init == l = 1 /\ bad = {} /\ nonconf = {}
